@@ -5,5 +5,6 @@ CONSTANTS
   Precs = {0, 1, 2, 3, 4, 5, 6, 7, 8, 9, 10, 11, 12, 20, 40}
   Seed = 1
   Thin = 2
+  ThinBig = 2
   AllModes = FALSE
 CHECK_DEADLOCK FALSE
